@@ -87,4 +87,13 @@ PROPS = {
                 "traffic: all 1884 patterns of <= 3 intervals over {u,d,s,h}x{1,2,3} s (quick: every 5th 3-interval pattern), two BaseURLs, every second of two cycles, on the vrt virtual clock",
         "assumptions": ["a representation filter matches by the representation id", "slow/hang delays are observed on the virtual clock (zero-time computation)"],
     },
+    "C13": {
+        "parts": [{"pkg": "scte35", "test": "TestVerifC13"}, {"pkg": "livesim", "test": "TestVerifC13H", "gen": True}],
+        "clauses": ["C13.sched", "C13.event", "C13.once", "C13.reject", "C13.videoonly", "C13.mpd"],
+        "level": "model_checking",
+        "rule": "(i) every segment of 27 h of stream time (PTS wrap) x 11 segment durations (1..10 s, 1.92, 2.002, 3.84) x N {1,2,3} through the real CreateEmsgAhead (quick: 1 h + 20 min around the wrap); "
+                "(ii) every video/audio/text segment of 6 min after start and 6 min around the PTS wrap over HTTP on bundled + generated assets x N x {Number,Time}; "
+                "own splice_info_section parser + MPEG-2 CRC-32",
+        "assumptions": ["the carrier may contain the announce instant at either end of its interval"],
+    },
 }
